@@ -21,7 +21,7 @@ Classes == {"Derivative", "Gradient", "Jacobian", "Hessdiag", "Hessian"}
 ComplexStep == {"complex", "multicomplex"}
 
 Configs ==
-  [cls : Classes, m : {"central", "forward", "complex", "multicomplex"}, n : 1..6,
+  [cls : Classes, m : {"central", "forward", "complex", "multicomplex"}, n : 0..6,
    xc : 0..2,             \* x: 0 real, 1 every element has a non-zero imaginary part, 2 only some elements have
    fc : 0..2,             \* f(x): 0 real, 1 complex-valued, 2 complex-valued in some components / for some elements only
    vec : BOOLEAN,         \* f returns one value per input element
@@ -32,7 +32,8 @@ Configs ==
 Valid(k) == /\ (k.cls \in {"Gradient", "Jacobian"} => k.n = 1)
             /\ (k.xc = 2 => k.dim > 1)                                                        \* "some" needs several elements
             /\ (k.fc = 2 => (k.cls = "Jacobian" \/ (k.cls = "Derivative" /\ k.dim > 1 /\ k.vec)))  \* ... or several components
-            /\ (k.n > 4 => k.m = "multicomplex")                                              \* n = 5, 6 only matter for the n > 2 guard
+            /\ (k.n > 4 => k.m = "multicomplex")
+            /\ (k.n = 0 => k.cls = "Derivative" /\ k.m \in {"central", "forward"} /\ k.xc = 0 /\ k.fc = 0 /\ ~k.few)   \* order 0: f itself; only the size guard applies                                              \* n = 5, 6 only matter for the n > 2 guard
             /\ (k.cls \in {"Hessdiag", "Hessian"} => k.n = 2)
             /\ (k.cls # "Derivative" => k.vec)            \* the size guard concerns elementwise Derivative
             /\ (k.cls = "Hessian" => ~k.few)              \* Hessian applies no rule
